@@ -48,6 +48,12 @@ class Check(PropertyCheck):
         mv, used, asz = declib.bzcraft.mtfzrle(L)
         blk.extra_selectors = 32767 - (len(mv) + 49) // 50
         files.append((declib.bzcraft.to_bytes(declib.bzcraft.stream([blk], 9, rng)), plain, "selectors32767"))
+        # committed corpus (e.g. a 900000-byte block that needs all 18001 selector groups)
+        cd = os.path.join(vlib.VERIF, "harness", "corpus", "c06")
+        if os.path.isdir(cd):
+            for n in sorted(os.listdir(cd)):
+                d = open(os.path.join(cd, n), "rb").read()
+                files.append((d, declib.libbz2_decode(d), "corpus:" + n))
         # in-tree conforming test vectors
         for n in ("32767.bz2", "codelen20.bz2", "concat.bz2", "empty.bz2", "fib.bz2", "ch255.bz2"):
             p = os.path.join(vlib.REPO, "tests", n)
@@ -73,7 +79,14 @@ class Check(PropertyCheck):
         for f, t, x in zip(sf, st, noexc):
             if not x.startswith("OK"):
                 self.notes.append("generator produced a non-conforming %s file: %s" % (t, x))
-        self.impl = declib.run_impl(self.files)
+        # tiny I/O granules (hook H2) only for small outputs; decompression bombs run with the shipped sizes
+        big = [i for i, p in enumerate(self.plains) if len(p) > 200000]
+        rest = [i for i in range(len(self.files)) if i not in big]
+        self.impl = [None] * len(self.files)
+        for i, r in zip(rest, declib.run_impl([self.files[i] for i in rest], timeout=120)):
+            self.impl[i] = r
+        for i, r in zip(big, declib.run_impl([self.files[i] for i in big], timeout=300, vary_granules=False)):
+            self.impl[i] = r
         hist = {}
         for t in self.tags:
             hist[t.split(":")[0]] = hist.get(t.split(":")[0], 0) + 1
@@ -105,7 +118,7 @@ class Check(PropertyCheck):
         self.rng = vlib.SplitMix(self.seed + 1000)
         files = self.gen()
         fs = [f for f, p, t in files]
-        return self.check_files(fs, [p for f, p, t in files], [t for f, p, t in files], declib.run_impl(fs))
+        return self.check_files(fs, [p for f, p, t in files], [t for f, p, t in files], declib.run_impl(fs, timeout=300, vary_granules=False))
 
     def replay(self, path):
         import json
